@@ -19,6 +19,7 @@ byte gi = 1;
 int gw = 1;
 int setg(int v) { gi = v is byte; gw = v; write('s'); return 7; }
 int own(int n) { int[] loc = [n, n + 1, n + 2]; return loc[0] + loc[2]; }
+int own3(int p, int q, int r) { return p + q + r; }
 int rec(int d) { int[] loc = [d, d]; if (d <= 0) { return loc[1]; } return rec(d - 1) + loc[0]; }
 int el(int v) { write('e'); return v; }
 bool elb(int v) { write('e'); return v > 1; }
@@ -49,6 +50,13 @@ def arrays():
         out.append(('lit', t, f'{t}[] a = [{", ".join(vals)}];', dump))
         fill = f'for (int k = 0; k < a.length; k += 1) {{ a[k] = {nv}; }}'
         out.append(('vla', t, f'{t} a[n]; {fill}', dump))
+    for t, (vals, nv, show) in ELV.items():
+        dump = f"for (int k = 0; k < a.length; k += 1) {{ {show} write(','); }} write(tab[0]); write(tab[1]);"
+        fill = f'for (int k = 0; k < a.length; k += 1) {{ a[k] = {nv}; }}'
+        # a literal-initialised array is live while a dynamic one is allocated
+        out.append(('litvla', t, f'int[] tab = [3, 4]; {t} a[n]; {fill}', dump))
+        # the frame was deeper before the array is declared than it is afterwards
+        out.append(('deepvla', t, f'write(own3(n, 2, 3)); {t} a[n]; {fill}', dump.replace(' write(tab[0]); write(tab[1]);', '')))
     dumpi = "for (int k = 0; k < a.length; k += 1) { write(a[k]); write(','); }"
     out.append(('litcall', 'int', 'int[] a = [el(1), el(n), el(3)];', dumpi))
     out.append(('litcall', 'bool', 'bool[] a = [elb(1), true, elb(n), elb(3), false, elb(2), true, true, elb(n)];', dumpi))
@@ -98,6 +106,8 @@ def programs():
                 if kind == 'littemp' and an != 'nothing':
                     continue
                 if an == 'nothing' and kind != 'littemp':
+                    continue
+                if kind in ('litvla', 'deepvla') and (an not in ('index', 'own', 'writes') or si == 1):
                     continue
                 if kind != 'none' and si == 1 and an not in ('index', 'writes', 'writemin', 'nothing'):
                     continue        # middle scalar variant only with the two cheapest actions
